@@ -297,9 +297,18 @@ def count_origin(v):
     return frozenset()
 
 
+ROWPERM = ("rowperm", "*")
+
+
 def _given_order(v):
-    """the array holds the caller's rows in the order given (an alias or a plain copy of a parameter / state array)."""
-    return bool(v.al) or "raw-param" in v.tags or any(isinstance(t, tuple) and t and t[0] == "val-of" for t in v.tags)
+    """the array holds the caller's rows in the order given: an alias or a plain copy of a parameter / state array, or any
+    array computed from the vertex array whose rows were never permuted (sorting, fancy indexing by a permutation and
+    np.unique leave the pseudo-dependence ROWPERM, which travels with the data dependences)."""
+    if ROWPERM in v.deps:
+        return False
+    if bool(v.al) or "raw-param" in v.tags or any(isinstance(t, tuple) and t and t[0] == "val-of" for t in v.tags):
+        return True
+    return v.kind in ("arr", "unknown") and ("vertices" in v.pdeps or any(a == "_vertices" for (_o, a) in v.deps))
 
 
 # ----------------------------------------------------------------------------- attributes of values
@@ -566,6 +575,8 @@ def call_ext(interp, ext, node, args, kwargs, st):
                 interp.emit(st, "squeeze", node, target=a0, axis=_arg(args, kwargs, 1, "axis"))
             if name == "diag":
                 interp.emit(st, "diag", node, arg=a0)
+            if name in ("sort", "unique"):
+                deps = deps | {ROWPERM}
             if name in ("roll", "sort", "unique", "flip"):
                 interp.emit(st, "reorder", node, fn=name, target=a0, axis=kwargs.get("axis", args[2] if (name == "roll" and len(args) > 2)
                                                                                   else (args[1] if (name != "roll" and len(args) > 1) else None)))
